@@ -35,7 +35,13 @@ Proof. vm_compute. reflexivity. Qed.
 Theorem C14_src_device_number_is_rdev : x_copy_node_uses_rdev = 1%N.
 Proof. exact x_copy_node_uses_rdev_ok. Qed.
 
+Theorem C14_src_special_arms : forall nc ex umask src,
+  special_code (special_worker nc ex umask src) = x_parfile_special nc ex /\
+  special_code (special_worker nc ex umask src) = x_parblock_special nc ex.
+Proof. exact x_special_ok. Qed.
+
 Print Assumptions C14_node_identical.
 Print Assumptions C14_classification.
 Print Assumptions C14_replace_unless_noclobber.
 Print Assumptions C14_src_device_number_is_rdev.
+Print Assumptions C14_src_special_arms.
